@@ -618,6 +618,21 @@ func (e *Engine) sliceOp(p *Path, x *ssa.Slice) bool {
 		}
 		ar, ok := e.load(p.st, xv).(ArrRef)
 		if !ok {
+			// (*[N]T)(unsafe.Pointer(&buf[k]))[lo:hi] - a view on the cells of a plain object that starts at
+			// the pointed cell: allowed for a single concrete target, bounded by the object (not by N)
+			if len(xv.alts) == 1 && xv.alts[0].off.IsConst() && len(xv.alts[0].path) == 0 {
+				al := xv.alts[0]
+				room := len(e.obj(p.st, al.obj).cells) - int(al.off.val)
+				n := e.Const(64, uint64(room))
+				lo := get(x.Low, e.Const(64, 0))
+				hi := get(x.High, n)
+				mx := get(x.Max, n)
+				if !e.check(p, e.And(e.Cmp(OpUle, lo, hi), e.And(e.Cmp(OpUle, hi, mx), e.Cmp(OpUle, mx, n))), "slice of an unsafe array view beyond the object") {
+					return false
+				}
+				p.regs[x] = SliceV{e.offsetPtr(xv, lo), e.Bin(OpSub, hi, lo), e.Bin(OpSub, mx, lo)}
+				return true
+			}
 			unsup("slice of pointer to non-array")
 		}
 		n := e.Const(64, uint64(len(e.obj(p.st, ar.obj).cells)))
@@ -764,7 +779,22 @@ func (e *Engine) convert(p *Path, x *ssa.Convert) Value {
 		}
 	}
 	if sl, ok := v.(SliceV); ok && isString(to) {
-		n := e.concLen(sl.len, "string([]byte)")
+		n := 0
+		if sl.len.IsConst() {
+			n = int(sl.len.val)
+		} else {
+			// symbolic length: the bytes are copied up to the largest length possible on this path; the string
+			// keeps the symbolic length (bytes beyond it are never looked at)
+			vals, complete := e.sol.Enumerate(e.TB, p.st.G, sl.len, 64, e.feasMs)
+			if !complete {
+				unsup("string([]byte) with a symbolic length of too many (or undecided) values")
+			}
+			for _, v := range vals {
+				if int64(v) > int64(n) {
+					n = int(v)
+				}
+			}
+		}
 		if n == 0 {
 			return StrV{len: e.Const(64, 0)}
 		}
